@@ -71,6 +71,31 @@ def mask_resolver(prog, fn, params, at):
     return resolve
 
 
+def inline_mask_helper(prog, fn):
+    """inline calls of package helpers whose body is a single ``return <mask expression>``."""
+    from .growth import subst
+
+    def inline(call: ast.Call):
+        tg = [t for t in prog.resolve_call(fn, call) if isinstance(t, FunctionInfo)]
+        if len(tg) != 1:
+            return None
+        h = tg[0]
+        body = [st for st in h.node.body if not (isinstance(st, ast.Expr) and isinstance(st.value, ast.Constant))]
+        if len(body) != 1 or not isinstance(body[0], ast.Return) or body[0].value is None:
+            return None
+        b = bind_args(h, call)
+        return subst(body[0].value, b)
+
+    return inline
+
+
+def NS(rel, l, r):
+    """NaN-strict negated ordering atom: ANY[not(l rel r)]."""
+    from ..quant import _cmp
+
+    return ("any", ("not", _cmp(rel, l, r)))
+
+
 def A(rel, l, r):
     from ..quant import _cmp
 
@@ -102,7 +127,7 @@ def check(ctx):
     ctx.rule("R1", "every documented invalid class has a raising guard (strictness included); no undocumented rejection", floor=14)
     conds = []  # (If, formula, disjunct list)
     for node, exc in raise_ifs(prog, val):
-        nz = Normaliser(resolver(node), rename)
+        nz = Normaliser(resolver(node), rename, inline=inline_mask_helper(prog, val), nan_strict=True)
         f = nz.quant(node.test, True)
         conds.append((node, exc, f, top_disjuncts(f)))
     all_disj = {}
@@ -119,9 +144,11 @@ def check(ctx):
         "x0 below the lower bound": A("<", "x0", "lb"),
         "x0 above the upper bound": A("<", "ub", "x0"),
         "hard bounds numerically too close": A("<=", "UBEFF", "LBEFF"),
-        "ordering lb <= plb": A("<", "plb", "lb"),
-        "ordering plb < pub": A("<=", "pub", "plb"),
-        "ordering pub <= ub": A("<", "ub", "pub"),
+    }
+    ordering = {
+        "ordering lb <= plb": (NS("<=", "lb", "plb"), A("<", "plb", "lb")),
+        "ordering plb < pub": (NS("<", "plb", "pub"), A("<=", "pub", "plb")),
+        "ordering pub <= ub": (NS("<=", "pub", "ub"), A("<", "ub", "pub")),
     }
     for what, atom in required.items():
         hits = all_disj.get(atom, [])
@@ -133,6 +160,28 @@ def check(ctx):
         else:
             near = [show(d) for d in all_disj if _same_vars(d, atom)]
             ctx.fail(val, val.node, f"no raising guard equivalent to '{show(atom)}' ({what}); nearest conditions on the same operands: {near or 'none'}", construct=f"<missing guard: {what}>")
+    # ordering: either spelling rejects mis-ordered finite bounds; only the negated-comparison
+    # spelling also rejects NaN bounds - that one must exist in the validator or in the transformer
+    T_ = R.transformer
+    trename0 = make_rename({"self.lb": "lb", "self.ub": "ub", "self.plb": "plb", "self.pub": "pub"})
+    t_strict = set()
+    for m_ in T_.methods.values():
+        for node_, exc_ in raise_ifs(prog, m_):
+            f_ = Normaliser(None, trename0, nan_strict=True).quant(node_.test, True)
+            if exc_ == "ValueError":
+                t_strict |= set(top_disjuncts(f_))
+    order_atoms = set()
+    for what, (strict, lenient) in ordering.items():
+        hits = [h for a_ in (strict, lenient) for h in all_disj.get(a_, []) if h[1] == "ValueError" and h[2]]
+        if hits:
+            ctx.ok(val, hits[0][0], f"{what}: mis-ordered bounds -> ValueError")
+            order_atoms |= {strict, lenient}
+        else:
+            near = [show(d) for d in all_disj if _same_vars(d, lenient)]
+            ctx.fail(val, val.node, f"no raising guard rejects a violation of '{what}'; nearest conditions on the same operands: {near or 'none'}", construct=f"<missing guard: {what}>")
+        nan_ok = any(h[1] == "ValueError" and h[2] for h in all_disj.get(strict, [])) or strict in t_strict
+        ctx.check(nan_ok, val, (all_disj.get(lenient) or [(val.node,)])[0][0], f"{what}: a NaN bound is rejected ({show(strict)} in the validator or the transformer)",
+                  f"'{what}' is only tested as '{show(lenient)}', which is False for NaN: a NaN bound passes both the validator and the transformer and the definition is accepted", construct=f"NaN passes {what}")
     # half-bounded: xor form, or both one-sided conjunctions
     fl, fu = ("pred", "isfinite", "lb", True), ("pred", "isfinite", "ub", True)
     nl, nu = ("pred", "isfinite", "lb", False), ("pred", "isfinite", "ub", False)
@@ -179,7 +228,7 @@ def check(ctx):
                     fixed_atom = d
     ctx.check(fixed_ok, val, val.node, "fixed variable (all four bounds equal) -> ValueError", "no guard rejects a variable whose four bounds coincide", construct="<missing guard: fixed variable>")
     # undocumented rejections
-    documented = set(required.values()) | hb_atoms
+    documented = set(required.values()) | hb_atoms | order_atoms
     if fixed_ok:
         documented.add(fixed_atom)
     for d, hits in all_disj.items():
@@ -196,7 +245,7 @@ def check(ctx):
         ctx.fail(val, node, f"the validator rejects a class of definitions that the property does not list as invalid: {s}", construct=f"undocumented rejection {s}")
     # ordering check must post-dominate the last adjustments of the plausible bounds
     cfg = cfg_of(val)
-    order_nodes = [n for n, e, f, ds in conds if required["ordering plb < pub"] in ds and required["ordering lb <= plb"] in ds and required["ordering pub <= ub"] in ds]
+    order_nodes = [n for n, e, f, ds in conds if all(any(a_ in ds for a_ in pair) for pair in ordering.values())]
     if order_nodes:
         last_order = max(order_nodes, key=lambda n: n.lineno)
         on = cfg.head_of(last_order)
@@ -225,22 +274,23 @@ def check(ctx):
         ctx.fail(init, init.node, "no guard raises ValueError when neither x0 nor both plausible bounds are given", construct="<missing guard: unknown dimension>")
     # transformer's own checks
     T = R.transformer
-    tchecks = {"order lb<=plb": A("<", "plb", "lb"), "order plb<pub": A("<=", "pub", "plb"), "order pub<=ub": A("<", "ub", "pub")}
+    tchecks = {"order lb<=plb": (NS("<=", "lb", "plb"), A("<", "plb", "lb")), "order plb<pub": (NS("<", "plb", "pub"), A("<=", "pub", "plb")), "order pub<=ub": (NS("<=", "pub", "ub"), A("<", "ub", "pub"))}
     trename = make_rename({"self.lb": "lb", "self.ub": "ub", "self.plb": "plb", "self.pub": "pub"})
     tdis = {}
     tfin = False
     for m in T.methods.values():
         for node, exc in raise_ifs(prog, m):
-            f = Normaliser(None, trename).quant(node.test, True)
+            f = Normaliser(None, trename, nan_strict=True).quant(node.test, True)
             for d in top_disjuncts(f):
                 tdis[d] = (m, node, exc)
             if "isfinite" in show(f) and "plb" in show(f) and "pub" in show(f):
                 tfin = True
-    for what, atom in tchecks.items():
-        if atom in tdis and tdis[atom][2] == "ValueError":
-            ctx.ok(tdis[atom][0], tdis[atom][1], f"transformer {what}")
+    for what, atoms in tchecks.items():
+        hit = [a_ for a_ in atoms if a_ in tdis and tdis[a_][2] == "ValueError"]
+        if hit:
+            ctx.ok(tdis[hit[0]][0], tdis[hit[0]][1], f"transformer {what}")
         else:
-            ctx.fail(T.methods.get("__init__") or next(iter(T.methods.values())), T.node, f"the transformer's own bounds check lacks {show(atom)} ({what})", construct=f"<missing transformer guard: {what}>")
+            ctx.fail(T.methods.get("__init__") or next(iter(T.methods.values())), T.node, f"the transformer's own bounds check lacks {show(atoms[1])} ({what})", construct=f"<missing transformer guard: {what}>")
     ctx.check(tfin, T.methods.get("__init__") or next(iter(T.methods.values())), T.node, "transformer checks finiteness of the plausible range", "the transformer no longer checks that the plausible range is finite", construct="<missing transformer guard: finite plausible>")
 
     # ------------------------------------------------------------------ R2
